@@ -116,25 +116,17 @@ func (c *Encoder) encodeStruct(v reflect.Value) {
 
 	vtyp := v.Type()
 
+	// first pass: a flag bit is set when at least one field of its group (fields sharing the bit) is non-zero
+	infos := make([]*fieldTag, v.NumField())
 	for i := 0; i < v.NumField(); i++ {
-		// THIS PART is appending to object meta value, that actually don't writing in real encodeValue
-		if hasFlagsField && flagIndex == i {
-			tmpObjects = append(tmpObjects, reflect.ValueOf(0))
-		}
-
 		info, err := parseTag(vtyp.Field(i).Tag)
 		if err != nil {
 			c.err = errors.Wrapf(err, "parsing tag of field %v", vtyp.Field(i).Name)
 			return
 		}
+		infos[i] = info
 
-		if info == nil {
-			// если тега нет, то это обязательное поле, значит 100% записываем
-			tmpObjects = append(tmpObjects, v.Field(i))
-			continue
-		}
-
-		if info.ignore {
+		if info == nil || info.ignore {
 			continue
 		}
 
@@ -143,17 +135,33 @@ func (c *Encoder) encodeStruct(v reflect.Value) {
 			return
 		}
 
-		fieldVal := v.Field(i)
-		if !fieldVal.IsZero() {
-			// тег есть, это 100% опциональное поле
+		if !v.Field(i).IsZero() {
 			flag |= 1 << info.index
-			if info.encodedInBitflag {
-				continue
-			}
+		}
+	}
 
+	// second pass: collecting values. if bit of the group is set, EVERY field of the group is written, zero
+	// valued too, cause decoder reads all of them
+	for i := 0; i < v.NumField(); i++ {
+		// THIS PART is appending to object meta value, that actually don't writing in real encodeValue
+		if hasFlagsField && flagIndex == i {
+			tmpObjects = append(tmpObjects, reflect.ValueOf(0))
+		}
+
+		info := infos[i]
+		if info == nil {
+			// если тега нет, то это обязательное поле, значит 100% записываем
 			tmpObjects = append(tmpObjects, v.Field(i))
-
 			continue
+		}
+
+		if info.ignore || info.encodedInBitflag {
+			continue
+		}
+
+		// тег есть, это 100% опциональное поле
+		if flag&(1<<info.index) != 0 {
+			tmpObjects = append(tmpObjects, v.Field(i))
 		}
 	}
 
